@@ -52,6 +52,11 @@ type AckBook struct {
 	Batches []*WBatch
 	clock   func() int64
 	nextID  int32
+	// Shared is ONE buffered done channel handed to every batch of chanKind
+	// "shared" (legal: a producer may count acknowledgements on one channel);
+	// SharedRecv holds what arrived on it
+	Shared     chan error
+	SharedRecv []AckObs
 }
 
 func NewAckBook(clock func() int64) *AckBook { return &AckBook{clock: clock} }
@@ -81,6 +86,13 @@ func (ab *AckBook) NewBatch(kind, chanKind string, n, parts int, recvDelay ...ti
 		b.Rows = []map[string]any{}
 	}
 	switch chanKind {
+	case "shared":
+		ab.mu.Lock()
+		if ab.Shared == nil {
+			ab.Shared = make(chan error, 4096)
+		}
+		b.Ch = ab.Shared
+		ab.mu.Unlock()
 	case "buf":
 		b.Ch = make(chan error, 4)
 	case "unbuf":
@@ -119,6 +131,17 @@ func (ab *AckBook) NewBatch(kind, chanKind string, n, parts int, recvDelay ...ti
 func (ab *AckBook) Collect() {
 	ab.mu.Lock()
 	bs := append([]*WBatch(nil), ab.Batches...)
+	if ab.Shared != nil {
+		for {
+			select {
+			case err := <-ab.Shared:
+				ab.SharedRecv = append(ab.SharedRecv, AckObs{err, ab.clock()})
+				continue
+			default:
+			}
+			break
+		}
+	}
 	ab.mu.Unlock()
 	for _, b := range bs {
 		if b.ChanKind != "buf" {
